@@ -1,13 +1,17 @@
 ---------------------------- MODULE TraceDispatch ----------------------------
 (* Binding for C18's dispatch: a trace is a history of responder operations and received
-   datagrams run on the real OscFunc / OscFunc.matching objects in RT mode.  For "recv" events the
-   driver recorded the datagram bytes, the sender, the receiving interface, what happened to the
-   receiver ("ok" | "raise:<Exc>" | "hang" | "stuck") and the log of callback invocations.
-   Osc.Dec classifies the datagram, Dispatch.Deliver computes what must fire.             *)
+   datagrams run on the real OscFunc / OscFunc.matching objects in RT mode.  Callbacks follow the
+   behaviour scripted at create / setfunc (raise on the k-th invocation, free / disable / enable
+   responders from inside).  For "recv" events the driver recorded the datagram bytes, the sender,
+   the receiving interface, what happened to the receiver ("ok" | "raise:<Exc>" | "hang" | "stuck")
+   and the log of callback invocations (each with the delivery number d of the message it ran for).
+   Osc.Dec classifies the datagram, Dispatch.Judge decides the log.  Every recv event is judged:
+   after a rejected one the trace goes on from the state the observed invocations lead to, so that
+   one defect does not hide another later in the same history.                              *)
 EXTENDS Dispatch, Json, IOUtils
 Traces == JsonDeserialize(IOEnv.VERIF_TRACES)
-VARIABLES tid, l, st
-tvars == <<tid, l, st>>
+VARIABLES tid, l, st, bad
+tvars == <<tid, l, st, bad>>
 
 \* diagnosis only: what is listening when a delivery goes wrong (becomes part of the signature)
 Context(st0, ms) ==
@@ -19,30 +23,41 @@ Context(st0, ms) ==
          \cup (IF \E i \in 1..Len(st0.rs) : st0.rs[i].en /\ st0.rs[i].kind = "matching" THEN {"matching-responder-enabled"} ELSE {})
          : k \in 1..Len(ms)}
 Outcome(out) == IF out = "hang" THEN "Hang" ELSE IF out = "stuck" THEN "Stuck" ELSE IF out # "ok" THEN "Raised" ELSE "ok"
+\* did a callback that ran in this datagram raise (per its script)?  -> part of the diagnosis
+RECURSIVE AnyRaised(_, _, _)
+AnyRaised(s, log, k) == IF k > Len(log) THEN FALSE
+                        ELSE IF log[k].r \notin 1..Len(s.rs) THEN AnyRaised(s, log, k + 1)
+                        ELSE Raises(s.rs[log[k].r]) \/ AnyRaised(Invoke(s, log[k].r), log, k + 1)
 RecvStep(st0, e) ==
     LET d == Dec(e.dg)  cls == Class(d, st0) IN
     IF cls = "bad" THEN
-        [st |-> st0, det |-> {d.why},
+        [st |-> Follow(st0, e.log, 1), det |-> {d.why},
          why |-> IF Outcome(e.out) # "ok" THEN "Malformed" \o Outcome(e.out)
                  ELSE IF e.log # <<>> THEN "MalformedFired" ELSE "ok"]
     ELSE IF cls = "grey" THEN
-        \* whatever fired, fired; one-shots among them are gone
-        [st |-> IF \A k \in 1..Len(e.log) : e.log[k].r \in 1..Len(st0.rs) THEN AfterFire(st0, [k \in 1..Len(e.log) |-> e.log[k].r]) ELSE st0,
-         det |-> {"grey datagram"}, why |-> Outcome(e.out)]
-    ELSE LET ms == FlatB(d)  x == Deliver(st0, ms, 1, e.src, e.via, <<>>)
+        \* whatever fired, fired
+        [st |-> Follow(st0, e.log, 1), det |-> {"grey datagram"}, why |-> Outcome(e.out)]
+    ELSE LET ms0 == FlatB(d)
              \* the callback's float time is exact only near the clock's offset: compare tags within 2^40 of it
              near(tag) == tag # <<>> /\ SubSeq(tag, 1, 3) = SubSeq(e.off, 1, 3) /\ ~LexLess(tag, e.off)
-             exp == [k \in 1..Len(x.log) |-> IF near(x.log[k].tm) THEN x.log[k] ELSE [x.log[k] EXCEPT !.tm = <<>>]] IN
-        [st |-> x.st, det |-> Context(st0, ms),
-         why |-> IF Outcome(e.out) # "ok" THEN Outcome(e.out) ELSE LogWhy(st0, e.log, exp)]
+             ms == [k \in 1..Len(ms0) |-> [tag |-> ms0[k].tag, a |-> ms0[k].a, args |-> ms0[k].args,
+                                           ctag |-> IF near(ms0[k].tag) THEN ms0[k].tag ELSE <<>>]]
+             j == Judge(st0, ms, e.src, e.via, e.log)
+             faulty == AnyRaised(st0, e.log, 1) IN
+        [st |-> j.st,
+         det |-> IF faulty THEN {"callback-raised"}
+                 ELSE Context(st0, ms0) \cup (IF j.acted THEN {"callback-acted"} ELSE {}),
+         why |-> IF Outcome(e.out) # "ok" THEN (IF faulty THEN "Callback" ELSE "") \o Outcome(e.out) ELSE j.why]
 
-TInit == tid \in 1..Len(Traces) /\ l = 1 /\ st = [rs |-> <<>>, ord |-> <<>>]
+TInit == tid \in 1..Len(Traces) /\ l = 1 /\ st = [rs |-> <<>>, ord |-> <<>>] /\ bad = FALSE
 Step == /\ l >= 1 /\ l <= Len(Traces[tid].ev)
         /\ LET e == Traces[tid].ev[l]
                r == IF e.op = "recv" THEN RecvStep(st, e) ELSE [st |-> Apply(st, e), why |-> "ok", det |-> {}] IN
-           IF r.why = "ok" THEN st' = r.st /\ l' = l + 1 /\ tid' = tid
-           ELSE PrintT(<<"REJ", Traces[tid].id, l, r.why, r.det>>) /\ l' = 0 /\ UNCHANGED <<st, tid>>
-Done == /\ l = Len(Traces[tid].ev) + 1 /\ PrintT(<<"ACC", Traces[tid].id>>)
-        /\ l' = 0 - 1 /\ UNCHANGED <<st, tid>>
+           /\ st' = r.st /\ l' = l + 1 /\ tid' = tid
+           /\ IF r.why = "ok" THEN bad' = bad
+              ELSE PrintT(<<"REJ", Traces[tid].id, l, r.why, r.det>>) /\ bad' = TRUE
+Done == /\ l = Len(Traces[tid].ev) + 1
+        /\ IF bad THEN TRUE ELSE PrintT(<<"ACC", Traces[tid].id>>)
+        /\ l' = 0 - 1 /\ UNCHANGED <<st, tid, bad>>
 TSpec == TInit /\ [][Step \/ Done]_tvars
 =============================================================================
